@@ -178,14 +178,16 @@ func init() {
 					if i%8 == 3 {
 						hq.Faults["seencheck"] = []string{"", "500", "", "reset-before"}
 					}
-					n := 0
+					keys := make([]string, 0, len(c.Scenario.Site))
 					for key := range c.Scenario.Site {
+						keys = append(keys, key)
+					}
+					sort.Strings(keys)
+					for n, key := range keys {
 						if n%3 == 0 {
 							hq.Seen = append(hq.Seen, "http://"+key)
 						}
-						n++
 					}
-					sort.Strings(hq.Seen)
 					if len(hq.Seen) > 6 {
 						hq.Seen = hq.Seen[:6]
 					}
